@@ -162,6 +162,9 @@ def main(argv):
             ctx.run_one(mod.case, spec)
         except ctxmod.Violation:
             pass
+        finally:
+            if hasattr(mod, "finish"):
+                mod.finish(state)
         if ctx.violation:
             print(f"VIOLATION property={prop} replay={os.path.abspath(path)}")
             print("  bucket:", ctx.violation["bucket"])
